@@ -312,6 +312,34 @@ def run(ctx):
             g = gates(b, last.bb)
             okf = any(strip_sym(dd)[0] == "bin" and ((strip_sym(dd)[1] in ("Ne", "Gt") and lab is True) or (strip_sym(dd)[1] == "Eq" and lab is False)) and sym_is_call(strip_sym(strip_sym(dd)[2]), "PayloadWriter::current_len") and const_int(strip_sym(dd)[3]) == 0 for dd, lab in g)
             chk.ob("C09.d", f"{hw.path} [final flush condition]", okf, "the remaining payload is finalised exactly when current_len() != 0 (bytes beyond the placeholder)" if okf else "the final flush is not conditioned on current_len() != 0: in length-prefixed mode the placeholder alone makes the buffer non-empty, and a payload without name or values is emitted", last.loc())
+        # every payload of a split histogram starts with the name: after the commit inside the loop the flag that makes
+        # the next value write the (prefixed) name first is set again on every way to the next value
+        names_ = [c for c in buf_ops(hw) if c.is_("extend_from_slice") and ("Key::name" in repr(arg_syms(c)[1]) or "KeyName::as_str" in repr(arg_syms(c)[1]))]
+        loop_commits = [c for c in commits if in_cycle(b, c.bb)]
+        flag, sw_bb = None, None
+        for nc in names_:
+            if not in_cycle(b, nc.bb):
+                continue
+            for x in range(b.n):
+                t_ = b.term(x)
+                if t_["k"] == "switch" and t_.get("dty") == "bool" and nc.bb in b.reachable(x) and any(tg != nc.bb and nc.bb not in b.reachable(tg, cut={x}) for _l, tg in b.switch_edges(x)):
+                    l_ = _root_local(b, t_["discr"])
+                    if l_ is not None and b.local_name(l_) and any(d_[0] == "assign" and d_[3]["rv"]["k"] == "use" and (d_[3]["rv"]["a"].get("const") or {}).get("bool") is True for d_ in b.defs().get(l_, [])):
+                        flag, sw_bb = l_, x
+        if flag is not None and loop_commits:
+            sets = {d_[1] for d_ in b.defs().get(flag, []) if d_[0] == "assign" and d_[3]["rv"]["k"] == "use" and (d_[3]["rv"]["a"].get("const") or {}).get("bool") is True}
+            okn = all(sw_bb not in b.reachable_after(c.bb, cut=sets) for c in loop_commits)
+            chk.ob("C09.e", f"{hw.path} [continuation payloads start with the name]", okn, f"`{b.local_name(flag)} = true` on every way from the mid-loop commit to the next value" if okn else f"after the commit inside the loop `{b.local_name(flag)}` is not set again: every continuation payload of a split histogram starts with `:value` — no prefix, no name", loop_commits[0].loc(), nontrivial=False)
+    # the separator belongs to the prefix: wherever a prefix is written the '.' follows under the same conditions, in every
+    # writer (a separator written only `if !prefix.ends_with('.')` in one writer sends the same key under two names)
+    for f in [g_ for g_ in d.fns if strip_generics(g_.j.get("impl_self", "")).endswith("PayloadWriter") and g_.j.get("mir")]:
+        b_ = f.body
+        dots = [c for c in buf_ops(f) if c.is_("Vec<T, A>::push") and byte(c) == "."]
+        exts = [c for c in buf_ops(f) if c.is_("extend_from_slice")]
+        for dp in dots:
+            gd = repr([(repr(strip_sym(dd)), lab) for dd, lab in gates(b_, dp.bb)])
+            same = [e for e in exts if b_.dominates(e.bb, dp.bb) and repr([(repr(strip_sym(dd)), lab) for dd, lab in gates(b_, e.bb)]) == gd]
+            chk.ob("C09.e", f"{f.path} [separator follows the prefix unconditionally]", bool(same), "'.' is pushed under exactly the conditions the prefix is written under" if same else "the '.' after the prefix is written under a further condition: for some prefixes this writer emits `<prefix><name>` where the others emit `<prefix>.<name>`", dp.loc(), nontrivial=False)
     for wname, tok in (("write_counter", "|c"), ("write_gauge", "|g")):
         f = one_method(chk, "C09.d", d, PW, wname)
         if not f:
